@@ -57,6 +57,20 @@ def fromCartesian (name : String) (context : Dict) (opts : List (String × List 
   { name, context, options := opts,
     tasks := (product (opts.map (·.2))).map fun t => (opts.map (·.1)).zip t }
 
+/-- an option as the caller gives it: a bare scalar (string, int, float) stands for the one-value list
+(`from_cartesian_product` wraps `str`/`int`/`float` and iterates over anything else) -/
+inductive OptArg
+  | bare (v : Val)
+  | many (vs : List Val)
+  deriving Repr
+
+def OptArg.toList : OptArg → List Val
+  | .bare v => [v]
+  | .many vs => vs
+
+def fromCartesianArgs (name : String) (context : Dict) (opts : List (String × OptArg)) : Manager :=
+  fromCartesian name context (opts.map fun kv => (kv.1, kv.2.toList))
+
 /-- `find(key=val)`: indices of the tasks whose option `key` has exactly that value
 (anchored literal pattern = string equality for identifier-like / integer values) -/
 def find (m : Manager) (key : String) (val : Val) : Option (List Nat) :=
